@@ -26,13 +26,14 @@ def main():
     for k in ("DATA", "CONFIG", "CACHE", "STATE"):
         env["XDG_%s_HOME" % k] = "/dev/shm/seed_import_xdg/%s" % k.lower()
         os.makedirs(env["XDG_%s_HOME" % k], exist_ok=True)
-    for pid in sys.argv[1:]:
+    rnd = next((a.split("=")[1] for a in sys.argv if a.startswith("--round=")), "")
+    for pid in [a for a in sys.argv[1:] if not a.startswith("--")]:
         src = "/tmp/wt/%s/_out" % pid
         for k in (1, 2, 3):
             diff, demo, txt = (os.path.join(src, "%s%d.%s" % (n, k, e)) for n, e in (("mutant", "diff"), ("demo", "py"), ("mutant", "txt")))
             if not (os.path.isfile(diff) and os.path.isfile(demo)):
                 continue
-            name = "%s-m%d" % (pid, k)
+            name = "%s-%sm%d" % (pid, ("r" + rnd) if rnd else "", k)
             sh("git -C %s checkout -q -- . && git -C %s clean -fdq" % (WT, WT))
             shutil.copy(demo, os.path.join(WT, "_demo.py"))
             a = sh("/venv/bin/python _demo.py", env=env, cwd=WT, timeout=600)
